@@ -414,7 +414,11 @@ def _call_single(kind, case, pts, q, track):
     if M.is_raised(r):
         return None, r
     try:
-        return (r[1], r[0].getX(), r[0].getY(), r[2]), None
+        got = (r[1], r[0].getX(), r[0].getY(), r[2])
+        # aliasing: the coordinate handed back belongs to the caller, who moves it (the queries that follow on the
+        # same reference track are judged against the polyline as it was built)
+        M.scribble(r[0])
+        return got, None
     except Exception as e:  # malformed result
         return ("malformed: %r" % (r,), None, None, None), None
 
@@ -534,6 +538,14 @@ def _run(case, ctx, given_track, query_track=None):
                     results.append(((out["dist", j], pos.getX(), pos.getY(), out["edge", j]), None))
                 if n_out != len(Q):
                     raise ValueError("%d projections for %d queries" % (n_out, len(Q)))
+                if query_track is None and len(Q) % 2 == 0:
+                    # aliasing: the mapped track belongs to the caller, who moves its points; one more projection on
+                    # the same reference track follows and is judged against the polyline as it was built
+                    for j in range(n_out):
+                        M.scribble(out[j].position)
+                    Q = list(Q) + [Q[0]]
+                    results.append(_call_single("track", case, pts, Q[0][:2], track))
+                    ctx.count("mapped_track_modified_by_the_caller")
             except (M.CaseTimeout, KeyboardInterrupt):
                 raise
             except Exception as e:
@@ -556,6 +568,10 @@ def _run(case, ctx, given_track, query_track=None):
             prob = judge(pts, q[:2], got[0], got[1], got[2], got[3] if want_idx else None, want_idx)
         if prob:
             d, p, leg, t = G.point_polyline(q[:2], pts)
+            extra_q = qi >= len(case["Q"])          # the projection repeated after the caller modified the first results
+            qi = qi if not extra_q else 0
+            if extra_q:
+                prob += " (the same query projected once more after the caller moved the points returned by the first call)"
             w = {"fn": fn, "qi": qi, "q": q[:2], "qkind": q[2], "what": prob,
                  "got": list(got) if got is not None and raised is None else None,
                  "raised": raised,
